@@ -409,7 +409,9 @@ class InfoWriter:
                 if kind == 'ref_addr' and spec.get('sib'):
                     return lay[2] + self._uref_target(unit, rec, spec, lay[3], lay[2])
                 if kind == 'ref_addr':
-                    tl = [l for l in layouts if l[1] == lay[1]]     # same section
+                    # DW_FORM_ref_addr designates an offset in .debug_info whichever section the referring unit lives in (DWARF 4
+                    # 7.5.4): an entry of a .debug_types unit refers to an entry of a .debug_info unit
+                    tl = [l for l in layouts if not l[1]] or [l for l in layouts if l[1] == lay[1]]
                     t = tl[spec['tu'] % len(tl)]
                     dies = [r for r in t[3] if not r['null']]
                     return dies[spec['t'] % len(dies)]['offset']
